@@ -15,14 +15,14 @@ RULE = (
     "{None,0,1,-1} x shapes {(16,),(8,12),(9,8)} x data class {normal, ties, constant, outlier, constant-lane, majority-ties} x affine maps a in "
     "{-100,-3,-0.01,0.01,2,100}, b in {0,-7|a|,50|a|}: (i) per-axis estimate == the 1-D estimator applied lane by lane, result broadcasts "
     "against the input; (ii) scale(a x+b) == |a| scale(x), z(a x+b) == sign(a) z(x) on lanes with a safely non-zero scale; (iii) all z-scores "
-    "finite. Non-trivial = every case with axis handling (2-D) or a non-identity map"
+    "finite. A long-lane lane repeats (i)-(iii) on shapes (4500,) and (3,4300) for every scale method (2 maps). Non-trivial = every case with axis handling (2-D) or a non-identity map"
 )
 ASSUMPTIONS = [
     "equivariance is asserted only on lanes whose scale estimate exceeds 1e-6 of the lane's spread (on a zero-scale lane the unit-scale fall-back makes it impossible by design); there only finiteness is required",
     "offsets are tied to |a| (b in {0,-7|a|,50|a|}) so that the float32 cast inside estimate_zscore is not the dominant error; tolerances 1e-9 (scale, float64) and 1e-4 (z-scores, float32)",
     "lane-by-lane agreement within 1e-12 relative (scale, float64) / 1e-6 (z-scores)",
 ]
-REQUIRED_OUTCOMES = ["axis/ok", "equivariance/ok", "finite/ok", "finite/zero_scale_lane", "container/ok"]
+REQUIRED_OUTCOMES = ["axis/ok", "equivariance/ok", "finite/ok", "finite/zero_scale_lane", "container/ok", "long_lane/ok"]
 
 SCALES = ["std", "iqr", "mad", "doublemad", "diffcov", "biweight", "qn", "sn", "gapper"]
 LOCS = ["median", "mean"]
@@ -43,6 +43,10 @@ def shards(tier: str, seed: int) -> list:
             for variant in ((0,) if tier == "quick" else (0, 1, 2, 3)):
                 out.append({"scale": sm, "cls": cls, "variant": variant})
     out.append({"scale": "containers", "cls": "normal"})
+    # scale lane: lanes of several thousand samples (estimators that switch algorithm, thin or tile above a size would show here)
+    for sm in SCALES:
+        for cls in ("normal", "ties"):
+            out.append({"scale": sm, "cls": cls, "variant": 0, "shapes": [[4500], [3, 4300]], "long": True})
     return out
 
 
@@ -104,13 +108,16 @@ def run_shard(shard: dict, ctx, res, only=None) -> None:
     if shard["scale"] == "containers":
         return _containers(shard, ctx, res, only)
     sm, cls = shard["scale"], shard["cls"]
-    for shape in SHAPES:
+    long = bool(shard.get("long"))
+    for shape in [tuple(sh) for sh in shard.get("shapes", SHAPES)]:
         x = _data(cls, shape, ctx.seed + 1000 * int(shard.get("variant", 0)))
         axes = [None, 0, 1, -1]
         if len(shape) == 1:
             axes = [None, 0, -1]
+        if long:
+            axes = [None] if len(shape) == 1 else [1]
         for axis in axes:
-            for lm in LOCS + ["norm"]:
+            for lm in (["median"] if long else LOCS + ["norm"]):
                 if only is not None and [list(shape), axis, lm] != only[:3]:
                     continue
                 base = {"shard": shard, "inner": [list(shape), axis, lm]}
@@ -158,6 +165,8 @@ def run_shard(shard: dict, ctx, res, only=None) -> None:
                 if not ok:
                     continue
                 res.outcome("axis/ok")
+                if long:
+                    res.outcome("long_lane/ok")
                 if x.ndim == 2:
                     res.nontrivial += 1
                 # ---------------- (iii) finiteness
@@ -182,7 +191,7 @@ def run_shard(shard: dict, ctx, res, only=None) -> None:
                 # ---------------- (ii) affine equivariance
                 # the tiny-scale class probes the zero-scale guard; an offset of 50|a| on a spread of 1e-4|a| is beyond float32 resolution
                 # (a precision question, not an equivariance one), so that class is only scaled
-                for a, bk in itertools.product(AS, BS if cls != "tiny_scale" else [0.0]):
+                for a, bk in ([(-3.0, 50.0), (2.0, -7.0)] if long else itertools.product(AS, BS if cls != "tiny_scale" else [0.0])):
                     if only is not None and len(only) > 3 and [a, bk] != only[3]:
                         continue
                     res.evaluations += 1
@@ -223,7 +232,7 @@ def run_shard(shard: dict, ctx, res, only=None) -> None:
                     tol_el = 1e-4 * np.maximum(1.0, np.abs(z)) + 64 * rel_in * (spr / scx) + 64 * np.abs(z) * rel_in * (spr / scx) ** 2
                     zdev = float(np.max((np.abs(z2 - np.sign(a) * z) / tol_el)[safe]))
                     res.maximum("zscore_equivariance_dev_over_tol", zdev)
-                    if zdev > 1:
+                    if not (zdev <= 1):
                         res.violation({"site": "stats.estimate_zscore", "symptom": "z(a*x+b) != sign(a)*z(x)", "scale": sm, "loc": lm, "negative_a": a < 0}, case,
                                       f"shape {shape} axis {axis} a={a} b={b}: max deviation / tolerance = {zdev:.3e}")
                         continue
